@@ -5,6 +5,7 @@ from .. import expr as E
 from .. import model as M
 from .. import primcheck as PC
 from ..core import Report
+from ..front import AnalysisError
 from ..spec import ptable as P
 from .common import require_no_errors, wire_results
 
@@ -69,10 +70,12 @@ def run(rep: Report) -> None:
                 jam = M.subst(q, {E.S("rho_first"): E.S("rho_max")})
                 try:
                     z = nz.rf(jam).is_zero()
-                except Exception as ex:  # division by zero etc.
+                    shown = nz.show(nz.rf(jam))[:200]
+                except AnalysisError as ex:  # e.g. a denominator that vanishes at rho_first = rho_max
                     z = False
+                    shown = f"an undefined value ({ex})"
                 rep.check(z, "flow-zero-at-jam", inst0, r.where,
-                          f"with rho_first = rho_max the flow normalises to {nz.show(nz.rf(jam))[:200]}, not 0",
+                          f"with rho_first = rho_max the flow normalises to {shown}, not 0",
                           key=f"jam|{impl}|{prim}|{typ}")
             # queue stays non-negative: w + T (d - q) with q replaced by its bound d + w/T
             if okd:
